@@ -204,7 +204,9 @@ def evaluate(case):
             def gen(metamodel, model, output_path, overwrite, debug, **custom_args):
                 calls.append((getattr(model, "_tx_filename", None), dict(custom_args), overwrite, output_path))
 
-            lang = "any" if (sel == "grammar" or case["gen_lang"] == "any") else "c30lang"
+            # an 'any' generator serves --grammar runs and languages deduced from the file name; an explicit --language
+            # asks for that language's own generator
+            lang = "any" if (sel == "grammar" or (case["gen_lang"] == "any" and sel == "pattern")) else "c30lang"
             decl = case["declared"]
             register_generator(GeneratorDesc(language=lang, target="c30target", description="", generator=gen,
                                              custom_args=None if decl is None else [GeneratorParam(n, "d", m) for n, m in decl]))
@@ -269,11 +271,12 @@ def evaluate(case):
                       "declared": case.get("declared")}
         cap = Capture()
         root = logging.getLogger()
-        root.addHandler(cap)
+        saved = root.handlers[:]
+        root.handlers[:] = [cap]  # the CLI's own stream handler would only add noise to the check's output
         try:
             res = CliRunner().invoke(cli, argv)
         finally:
-            root.removeHandler(cap)
+            root.handlers[:] = saved
         shown = " ".join(out.sample["argv"])
         kind = case["cmd"]
         exc = res.exception
@@ -302,7 +305,10 @@ def evaluate(case):
                     line, col = 1, 1
                 want = f"{os.path.basename(paths[first_bad])}:{line}:{col}:"
                 if not any(want in m for m in errs):
-                    out.add(f"{kind}_error_not_located", f"{shown}: expected an error containing {want!r}; got {errs}")
+                    feat = ""
+                    if kind == "generate" and any("-" in n and v is None for n, v in case["args"]):
+                        feat = "/bare_flag_with_dash"
+                    out.add(f"{kind}_error_not_located{feat}", f"{shown}: expected an error containing {want!r}; got {errs}")
         if exp_calls is not None:
             got = [(os.path.abspath(c[0]) if c[0] else None, c[1], c[2], c[3]) for c in calls]
             if [(g[0], g[1]) for g in got] != [(e[0], e[1]) for e in exp_calls]:
